@@ -11,7 +11,7 @@ import (
 // must equal the state without them; after Commit everything is visible; after Discard or
 // Close-with-open-transaction nothing is, and storage holds no leftover table.
 
-var c11Alpha = []string{"put:a", "del:b", "q", "otr", "tput:a", "tput:b", "tdel:a", "twrite", "commit", "discard", "reT", "re", "snap", "rel:0", "big", "cr"}
+var c11Alpha = []string{"put:a", "del:b", "q", "otr", "tput:a", "tput:b", "tdel:a", "twrite", "commit", "discard", "reT", "re", "snap", "rel:0", "big", "cr", "titer", "reliter"}
 
 func init() {
 	hk := &seqHooks{After: func(w *harness.World, t *seqTask, r *seqResult) {
